@@ -33,6 +33,7 @@ theorem be32_eq (n : Nat) : be32 n = [b8 (n / 16777216), b8 (n / 65536), b8 (n /
 theorem be16_length (n : Nat) : (be16 n).length = 2 := rfl
 theorem be24_length (n : Nat) : (be24 n).length = 3 := rfl
 theorem be32_length (n : Nat) : (be32 n).length = 4 := rfl
+theorem be64_length (n : Nat) : (be64 n).length = 8 := rfl
 
 /-! ### 32-bit time arithmetic -/
 
